@@ -8,7 +8,9 @@ git apply "$P" || { echo "patch does not apply to /repo"; exit 2; }
 trap 'git -C /repo checkout -q -- .' EXIT
 cd /verif
 for c in "$@"; do
+  cp evidence/$c.json /tmp/evidence_$c.json.bak 2>/dev/null     # evidence files must describe the unchanged tree
   out=$(./check $c ${TIER:+--tier $TIER} 2>&1); rc=$?
+  cp /tmp/evidence_$c.json.bak evidence/$c.json 2>/dev/null; rm -f /tmp/evidence_$c.json.bak
   echo "[$c rc=$rc] $(echo "$out" | grep -E "^VIOLATION|HARNESS" | head -4 | tr '\n' ' ') $(echo "$out" | grep -E "quick seed|thorough seed" | tail -1)"
   echo "$out" | grep -E "^  key=" | head -6
 done
